@@ -66,7 +66,10 @@ func (f *WithOutputToString) Call(s *slip.Scope, args slip.List, depth int) slip
 	s2.Let(sym, &stream)
 	args = args[1:]
 	for i := range args {
-		_ = slip.EvalArg(s2, args, i, d2)
+		switch exit := slip.EvalArg(s2, args, i, d2).(type) {
+		case *slip.ReturnResult, *GoTo:
+			return exit
+		}
 	}
 	return slip.String(out.String())
 }
